@@ -22,7 +22,7 @@ import (
 
 func init() { streams["c05"] = runC05 }
 
-func hs(s string) string { return hx([]byte(s)) }
+func c05Hs(s string) string { return hx([]byte(s)) }
 
 // ---- scenes -------------------------------------------------------------------------------------
 
@@ -71,7 +71,7 @@ func (m c05Mesh) mesh(pool map[string]*modeling.Material) modeling.Mesh {
 
 func c05MeshTok(m c05Mesh) string {
 	var sb strings.Builder
-	fmt.Fprintf(&sb, "%s %d", hs(m.name), len(m.idx))
+	fmt.Fprintf(&sb, "%s %d", c05Hs(m.name), len(m.idx))
 	for _, i := range m.idx {
 		fmt.Fprintf(&sb, " %d", i)
 	}
@@ -104,14 +104,14 @@ func c05MeshTok(m c05Mesh) string {
 		if x.name == nil {
 			fmt.Fprintf(&sb, " ~ %d", x.count)
 		} else {
-			fmt.Fprintf(&sb, " %s %d", hs(*x.name), x.count)
+			fmt.Fprintf(&sb, " %s %d", c05Hs(*x.name), x.count)
 		}
 	}
 	return sb.String()
 }
 
 func c05SceneTok(matFile string, ms []c05Mesh) string {
-	parts := []string{hs(matFile), fmt.Sprint(len(ms))}
+	parts := []string{c05Hs(matFile), fmt.Sprint(len(ms))}
 	for _, m := range ms {
 		parts = append(parts, c05MeshTok(m))
 	}
@@ -166,7 +166,7 @@ func c05ResultTok(gs []obj.ObjMesh, libs []string) string {
 	}
 	parts = append(parts, fmt.Sprint(len(libs)))
 	for _, l := range libs {
-		parts = append(parts, hs(l))
+		parts = append(parts, c05Hs(l))
 	}
 	return strings.Join(parts, " ")
 }
@@ -642,7 +642,7 @@ func (c *Ctx) c05TextCase() {
 	}
 	c.Note("text." + strings.TrimPrefix(op, "c05.holds."))
 	if text2 == nil {
-		c.Emit(op, hx(text)+" "+hs(sans), "true")
+		c.Emit(op, hx(text)+" "+c05Hs(sans), "true")
 		return
 	}
 	c.Emit(op, hx(text)+" "+sans, "true")
@@ -690,14 +690,14 @@ func c05MatGroups(names []string, meshes []modeling.Mesh, expectNil bool) string
 	parts := []string{fmt.Sprint(len(names))}
 	for i, n := range names {
 		mm := meshes[i].Materials()
-		parts = append(parts, hs(n), fmt.Sprint(meshes[i].PrimitiveCount()), fmt.Sprint(len(mm)))
+		parts = append(parts, c05Hs(n), fmt.Sprint(meshes[i].PrimitiveCount()), fmt.Sprint(len(mm)))
 		for _, x := range mm {
 			d := c05MatDesc(x.Material)
 			if x.Material == nil && expectNil {
 				dm := modeling.DefaultMaterial() // what the writer puts in the .mtl for a nil material
 				d = c05MatDesc(&dm)
 			}
-			parts = append(parts, hs(d), fmt.Sprint(x.PrimitiveCount))
+			parts = append(parts, c05Hs(d), fmt.Sprint(x.PrimitiveCount))
 		}
 	}
 	return strings.Join(parts, " ")
